@@ -64,6 +64,15 @@ pub fn check_state(cx: &mut CaseCx, g: &GGM, path: &[u8], baseline: &[Option<[u8
     }
   }
   if probe_refusals {
+    // the value is written through a caller buffer: what it held before must not matter
+    for x in (0..=255u8).filter(|x| !p.has(*x)).take(2).chain((0..=255u8).rev().filter(|x| !p.has(*x)).take(1)) {
+      let mut out = [0xa5u8; 32];
+      cx.eval();
+      if guard(|| g.eval(&[x], &mut out).is_ok()) == Ok(true) && Some(out) != baseline[x as usize] {
+        cx.viol("C10/value-depends-on-buffer", format!("input {} evaluated into a buffer that held 0xa5 bytes gives another value than into a zeroed buffer", x), json!({"punctured_in_order": path, "input": x}));
+        return;
+      }
+    }
     let before = sorted_nodes(g);
     let mut probe = |cx: &mut CaseCx, what: &str, f: &dyn Fn(&mut GGM) -> bool| {
       let mut c = g.clone();
